@@ -129,6 +129,8 @@ def check_case(res, fmt, variants, eol, final_newline, gz, lazy, scheds, whole_c
     if whole != f.expected(recs):
         res.extra['whole_read_differs_from_spec(judged in C02)'] += 1
     completed = 0
+    e = LF if eol == 'LF' else CRLF
+    max_rec = max(len(e.join(r.lines) + e) for r in recs)
     for sched in scheds:
         res.evaluations += 1
         res.states += 1
@@ -147,6 +149,11 @@ def check_case(res, fmt, variants, eol, final_newline, gz, lazy, scheds, whole_c
         else:
             res.raising += 1
             res.outcome('raises:' + status[1])
+            # the statement allows an error only for a chunk size too small to hold one entry
+            k_min = min(s for s in sched[1:] if isinstance(s, int))
+            if verdict is None and k_min >= max_rec:
+                verdict = ('raises-although-chunk-size-holds-the-largest-entry', 'completes (k=%d >= largest entry %d bytes)' % (k_min, max_rec),
+                           '%s: %s' % (status[1], str(status[2])[:200]))
         if verdict is not None:
             kind, exp, obs = verdict
             feats = {'format': fmt, 'final_newline': final_newline, 'gz': gz}
@@ -196,6 +203,8 @@ def run_open_shard(desc, deadline):
             for eol in [desc['eol']]:
                 for fn in (True, False):
                     _, recs, data = build(fmt, variants, eol, fn)
+                    ee = LF if eol == 'LF' else CRLF
+                    max_rec = max(len(ee.join(r.lines) + ee) for r in recs)
                     for gz in (False, True):
                         path = os.path.join(scratch, 'f' + OPEN_SUFFIX[fmt] + ('.gz' if gz else ''))
                         with (gzip.open(path, 'wb') if gz else open(path, 'wb')) as fh:
@@ -239,6 +248,10 @@ def run_open_shard(desc, deadline):
                                 else:
                                     res.raising += 1
                                     res.outcome('open-raises:' + status[1])
+                                    if verdict is None and k >= max_rec:
+                                        verdict = ('raises-although-chunk-size-holds-the-largest-entry',
+                                                   'completes (k=%d >= largest entry %d bytes)' % (k, max_rec),
+                                                   '%s: %s' % (status[1], str(status[2])[:200]))
                                 if verdict is not None:
                                     res.fail(verdict[0], case, {'format': fmt, 'final_newline': fn, 'gz': gz, 'via': 'bnp.open'},
                                              expected=verdict[1], observed=verdict[2])
